@@ -194,6 +194,7 @@ pub fn blocks(thorough: bool) -> Vec<Block> {
         b.push(Block::new(Universe::new("U_pairs{a,b}^<=4", &["a", "b"], 4, 2, false), vec![Cfg::new(R), Cfg::with(R, 2, 1)], "r, r(2,1)"));
         b.push(Block::new(Universe::new("U_adv(A_gc)", A_GC, 2, 2, true), vec![Cfg::new(0), Cfg::new(R)], "{}, r"));
         b.push(Block::new(Universe::new("U_adv(A_cons)", A_CONS, 1, 3, false), vec![Cfg::new(0)], "{}"));
+        b.push(Block::new(u_corpus("U_large", verif_seed(), 6_000, &["a", "b", "c"], (12, 19), (5, 7)), vec![Cfg::new(0)], "{} (tries of 60-130 states)"));
         b.push(Block::new(u_prefix_counts(), vec![Cfg::new(R)], "r"));
         b.push(Block::new(u_prefix_counts_unit(), vec![Cfg::new(R)], "r"));
         b.push(Block::new(Universe::new("U_abc3{a,b,c}", &["a", "b", "c"], 3, 4, false), vec![Cfg::new(0)], "{}"));
